@@ -266,6 +266,8 @@ def register(R):
                 and rn[0].extra['env']['new_filename'] is c.oldf('_final_filename'))),
             'failing_rename_removes_the_temp_file_and_fails_the_transfer': B((not rn_failed) or (
                 len(rm) == 1 and len(se) == 1 and se[0].args[0] is rn[0].extra['raised'])),
+            # the destination name is touched only through the rename: whatever is removed is the temporary file
+            'only_the_temp_file_is_ever_removed': (B(all(e.extra['env']['filename'] is c.oldf('_temp_filename') for e in rm)), ['C20', 'C06']),
         }
 
     R.contract(f'{RTH}.__call__', props=['C20', 'C06'], params={},
